@@ -262,7 +262,7 @@ theorem C11_other_calls_keep (s : State) (hwf : s.WF) (c : Call) (hc : isPurging
       have := getSess_get hs
       rw [hg] at this
       cases this
-      simp [sameThing, h1, h2]
+      simp [sameThing, replSess, h1, h2]
     · have : (k == h) = false := by simp [beq_eq_false_iff_ne]; exact hkh
       simp [this, hrefl]
   have keep : ∃ e', s.handles.get k = some e' ∧ sameThing e e' := ⟨e, hg, hrefl⟩
